@@ -175,3 +175,15 @@ chk("C17",
     "other than references are outside the skeleton.",
     "Lean 4 proof (invariant by induction over operation histories) over a reference-skeleton model; op-sequence correspondence; "
     "search", "8/C17")
+chk("C18",
+    "Lean theorems over the edge-list model of create_nxgraph: a valve attached to a pipe contributes no edge; a closed one "
+    "removes its pipe's edge when valve status is respected; with unique element identities the edge list has no duplicates and "
+    "every in-service junction-to-junction element between in-service junctions appears as exactly one edge between its two "
+    "junctions; for nets whose branches are undirected and connecting, the solver's supply search (C04's model) marks a junction "
+    "iff it lies in the same connected component (equivalence closure) as an in-service pressure-fixing junction - i.e. what "
+    "unsupplied_junctions computes. The model is tied to the real create_nxgraph / unsupplied_junctions on the edge multiset for "
+    "all four respect-status combinations. Search: edge multiplicity, phantom nodes, unsupplied vs NaN pattern, distances vs an "
+    "independent Dijkstra.",
+    "networkx is library code (components / Dijkstra as parameters validated by correspondence). Known finding: graph and solver "
+    "differ for heat consumers, active flow controllers, pressure controllers and circulation-pump supply.",
+    "Lean 4 proof over an edge-list model + C04's connectivity model; correspondence; graph-vs-solver search", "8/C18")
